@@ -448,3 +448,55 @@ def _cumsum_tel_proof():
 
 
 LEMMA_PROOFS["L_cumsum_tel"] = _cumsum_tel_proof
+
+
+# ----------------------------------------------------------------------------- CAPA (C03)
+# PSC(tok, s, e, alpha, bid): penalised saving of [s,e) = best over non-empty subsets J of components of
+#   sum_{j in J} SC2(tok,s,e,j) - alpha - sum_{k<|J|} beta_k   (clipped below at -alpha in the equal-betas form, DESIGN 5.2);
+# bid identifies the betas array (arrid). For concrete p <= 3 the definition is expanded explicitly (PEN_EXPLICIT).
+_PSC = z3.Function("PSC", _I, _I, _I, _R, _I, _R)
+SPEC_FUNCS["PSC"] = lambda eng, st, tok, s, e, alpha, bid: _PSC(to_z3(tok), to_z3(s), to_z3(e), to_z3(to_real(alpha)), to_z3(bid))
+_CG = z3.Function("CG", _I, _R)          # optimal total penalised saving of the prefix of length T (per verification context)
+_CA = z3.Function("CA", _I, _I)          # an optimal collective start for prefix T when the collective option attains CG(T)
+SPEC_FUNCS["CG"] = lambda eng, st, T: _CG(to_z3(T))
+SPEC_FUNCS["CA"] = lambda eng, st, T: _CA(to_z3(T))
+
+
+@spec("arrid")
+def _arrid(eng, st, a):
+    if a.fn is None:
+        a2 = eng.materialise(st, a, "idarr")
+        a.fn = a2.fn
+    return z3.Int("ID_" + a.fn.name())
+
+
+@spec("CAPA_THEORY")
+def _capa_theory(eng, st, tokc, ac, bidc, tokp, ap, bidp, m, M, n):
+    """Bellman characterisation of CG for the given savings / penalties (definition of the spec function)."""
+    tokc, tokp, bidc, bidp, m, M, n = [to_z3(x) for x in (tokc, tokp, bidc, bidp, m, M, n)]
+    ac, ap = to_z3(to_real(ac)), to_z3(to_real(ap))
+    PSc = lambda s, e: _PSC(tokc, s, e, ac, bidc)
+    PSp = lambda t: _PSC(tokp, t, t + 1, ap, bidp)
+    T, s = z3.Ints("T!ct s!ct")
+    eng.note_assumption("definition of the spec function CG (optimal total penalised saving per prefix) by its Bellman equations: CG(0)=0, "
+                        "CG(T)=max(CG(T-1), CG(T-1)+PSp(T-1), max over s with m<=T-s<=M of CG(s)+PSc(s,T)); CA(T) attains the collective option")
+    return z3.And(
+        _CG(0) == 0,
+        z3.ForAll([T], z3.Implies(z3.And(1 <= T, T <= n), z3.And(_CG(T) >= _CG(T - 1), _CG(T) >= _CG(T - 1) + PSp(T - 1))), patterns=[_CG(T)]),
+        z3.ForAll([T, s], z3.Implies(z3.And(1 <= T, T <= n, 0 <= s, m <= T - s, T - s <= M), _CG(T) >= _CG(s) + PSc(s, T)), patterns=[PSc(s, T)]),
+        z3.ForAll([T], z3.Implies(z3.And(1 <= T, T <= n),
+                                  z3.Or(_CG(T) == _CG(T - 1), _CG(T) == _CG(T - 1) + PSp(T - 1),
+                                        z3.And(0 <= _CA(T), m <= T - _CA(T), T - _CA(T) <= M, _CG(T) == _CG(_CA(T)) + PSc(_CA(T), T)))),
+                  patterns=[_CA(T)]),
+    )
+
+
+@spec("CAPA_SUBADD")
+def _capa_subadd(eng, st, tokc, ac, bidc, P, m, M, n):
+    """Penalised sub-additivity under splitting: PSc(a,c) <= PSc(a,b) + PSc(b,c) + P (P = alpha + sum of betas), side condition of C03."""
+    tokc, bidc, m, M, n = [to_z3(x) for x in (tokc, bidc, m, M, n)]
+    ac, P = to_z3(to_real(ac)), to_z3(to_real(P))
+    PSc = lambda s, e: _PSC(tokc, s, e, ac, bidc)
+    a, b, c = z3.Ints("a!cs b!cs c!cs")
+    return z3.ForAll([a, b, c], z3.Implies(z3.And(0 <= a, a + m <= b, b + m <= c, c <= n, c - a <= M), PSc(a, c) <= PSc(a, b) + PSc(b, c) + P),
+                     patterns=[z3.MultiPattern(PSc(a, b), PSc(b, c))])
